@@ -24,18 +24,23 @@ IMPORTS = {
         ("C08", ["C08.D1"], "renames carry the raw JSON name exactly when the identifier differs"),
         ("C05", ["C05.W2"], "closed objects stay closed and required members stay required"),
         ("C06", ["C06.W1"], "both ingestion routes finalise every type they create"),
+        ("C06", ["C06.D1"], "a default that schemars records (e.g. the Default of an adjacently tagged enum) is accepted only if it can be rendered: ingestion does not succeed and then panic while rendering"),
+        ("C01", ["C01.T3"], "a one-element tuple variant keeps its tuple-ness (`V((T,))`): serde's representation of `V((T,))` and `V(T)` differ"),
     ],
     "C02": [
         ("C10", ["C10.D1", "C10.D2", "C10.D3", "C10.D4", "C10.D6", "C10.D7"], "the scalar chosen can represent every admitted value, so every valid number/string deserializes"),
         ("C09", ["C09.D8", "C09.D3"], "the mutual-exclusion tests that decide how an anyOf is rendered look at both directions of every pair"),
+        ("C09", ["C09.D9"], "the alternatives of a nested oneOf are each conjoined with the negation of the *others*: a valid instance is not excluded by its own alternative"),
         ("C09", ["C09.D5", "C09.D1"], "a merge does not drop enum values of the right JSON type and does not declare a satisfiable conjunction empty: instances valid under the allOf stay representable"),
     ],
     "C03": [
+        ("C09", ["C09.D5"], "enum values that are valid for the merged schema's type are kept: an instance made of them still deserialises"),
         ("C08", ["C08.D2"], "two properties that sanitise to one field are rejected, not silently merged: no declared member is dropped on the round trip"),
         ("C02", ["C02.D1"], "a tagged variant is data-less only when the tag is its only member: no declared member is dropped"),
         ("C02", ["C02.W5", "C02.D2"], "sibling subschemas keep types of their own (a value is not rewritten through a sibling's type); an anyOf is only treated as a oneOf when no two alternatives overlap, so no member is dropped by a shadowing variant"),
     ],
     "C05": [
+        ("C06", ["C06.D10"], "the values of an allow / deny list are compared as the numbers the schema states: no number is squeezed through a narrower representation on the way"),
         ("C09", ["C09.W1"], "a closed object stays closed through an allOf merge: an unsatisfiable / `false` additionalProperties outcome is never dropped to 'absent'"),
         ("C11", ["C11.T1", "C11.T2"], "FromStr / TryFrom accept exactly the strings Deserialize accepts (same raw names, same constrained path)"),
     ],
@@ -44,6 +49,7 @@ IMPORTS = {
     ],
     "C10": [
         ("C09", ["C09.D8"], "a merged tuple position is constrained only by what the subschemas say about that position: the scalar chosen for it admits every value the conjunction admits"),
+        ("C09", ["C09.D6", "C09.D7"], "the bounds of a conjunction are each side's own bounds combined member by member in the direction of an intersection: the scalar is chosen for the range the allOf really admits"),
         ("C06", ["C06.W3", "C06.D8"], "the numeric default that is range-checked is the one the schema states (annotations are not rewritten before conversion)"),
     ],
     "C14": [
